@@ -11,10 +11,12 @@ replace github.com/gobuffalo/pop/v6 => github.com/ory/pop/v6 v6.2.1-0.2024112111
 require (
 	github.com/gofrs/uuid v4.4.0+incompatible
 	github.com/julienschmidt/httprouter v1.3.0
+	github.com/ory/herodot v0.10.3-0.20250318104651-3179543efba8
 	github.com/ory/keto v0.0.0
 	github.com/ory/keto/proto v0.13.0-alpha.0
 	github.com/ory/x v0.0.708
 	github.com/sirupsen/logrus v1.9.3
+	google.golang.org/grpc v1.71.1
 	google.golang.org/protobuf v1.36.6
 )
 
@@ -117,7 +119,6 @@ require (
 	github.com/ory/analytics-go/v5 v5.0.1 // indirect
 	github.com/ory/dockertest/v3 v3.11.0 // indirect
 	github.com/ory/graceful v0.1.3 // indirect
-	github.com/ory/herodot v0.10.3-0.20250318104651-3179543efba8 // indirect
 	github.com/ory/jsonschema/v3 v3.0.9-0.20250317235931-280c5fc7bf0e // indirect
 	github.com/pelletier/go-toml v1.9.5 // indirect
 	github.com/pkg/errors v0.9.1 // indirect
@@ -173,7 +174,6 @@ require (
 	golang.org/x/text v0.24.0 // indirect
 	google.golang.org/genproto/googleapis/api v0.0.0-20250313205543-e70fdf4c4cb4 // indirect
 	google.golang.org/genproto/googleapis/rpc v0.0.0-20250404141209-ee84b53bf3d0 // indirect
-	google.golang.org/grpc v1.71.1 // indirect
 	gopkg.in/yaml.v2 v2.4.0 // indirect
 	gopkg.in/yaml.v3 v3.0.1 // indirect
 )
